@@ -1244,6 +1244,8 @@ class Client:
         if noreply:
             extra += b" noreply"
         expire_bytes = self._check_integer(expire, "expire")
+        if flags is not None:
+            self._check_integer(flags, "flags")
 
         for key, data in values.items():
             # must be able to reliably map responses back to the original order
